@@ -124,8 +124,29 @@ const miniEDIRequired = `{
 }`
 const miniEDIRequiredInput = "HDR*a*1~HDR*b*x~HDR*c~HDR*d*4~"
 
+// data after the complete top-level JSON value: a fatal error at the Read that meets it, whatever the token is
+const miniJSONTrailInput = `[{"id": "a", "qty": 1, "tags": ["x"]}, {"id": "b", "qty": "bad"}] 7`
+const miniJSONTrailInput2 = `[{"id": "a", "qty": 1}]
+"tail" {"id": "z"}`
+const miniJSONTrailInput3 = `{"id": "solo", "qty": 3} null`
+
+// a filter on the target of the legacy fixed-length reader that rejects the last envelope (and one in the middle)
+const miniFixedFiltered = `{
+ "parser_settings": {"version": "omni.2.1", "file_format_type": "fixed-length"},
+ "file_declaration": {"envelopes": [{"name": "R", "by_header_footer": {"header": "^A", "footer": "^B"}, "columns": [
+   {"name": "id", "start_pos": 1, "length": 3, "line_pattern": "^A"},
+   {"name": "qty", "start_pos": 2, "length": 4, "line_pattern": "^B"}]}]},
+ "transform_declarations": {"FINAL_OUTPUT": {"xpath": ".[qty != '0000']", "object": {
+   "id": {"xpath": "id"}, "qty": {"xpath": "qty", "type": "int"}}}}
+}`
+const miniFixedFilteredInput = "A01 first\nB0010\nA02 second\nB0000\nA03 third\nB0030\nA04 fourth\nB0000\n"
+
 func miniSamples() []Sample {
 	return []Sample{
+		{"mini/json-trailing-scalar", "json", []byte(miniJSON), []byte(miniJSONTrailInput)},
+		{"mini/json-trailing-string-object", "json", []byte(miniJSON), []byte(miniJSONTrailInput2)},
+		{"mini/json-trailing-null", "json", []byte(miniJSON), []byte(miniJSONTrailInput3)},
+		{"mini/fixedlength-filtered", "fixedlength", []byte(miniFixedFiltered), []byte(miniFixedFilteredInput)},
 		{"mini/edi-required-element", "edi", []byte(miniEDIRequired), []byte(miniEDIRequiredInput)},
 		{"mini/datetime", "csv", []byte(miniDateTime), []byte(miniDateTimeInput)},
 		{"mini/failkinds", "csv", []byte(miniFailKinds), []byte(miniFailKindsInput)},
